@@ -20,6 +20,9 @@ pub struct BfsOut {
     pub states: u64,
     pub transitions: u64,
     pub max_depth: usize,
+    /// every state at depth < complete_depth was expanded with every symbol (a state or time cap stops the search
+    /// in the middle of a level; the levels before it are complete)
+    pub complete_depth: usize,
     pub closed: bool,
     pub capped_by: Option<String>,
     pub deepest: Hist,
@@ -33,6 +36,18 @@ pub struct BfsCfg {
     pub max_depth: usize,
     pub max_states: u64,
     pub max_secs: f64,
+}
+
+/// Record `h` as the witness of `k` unless a witness that is shorter, or equally long and lexicographically
+/// smaller, is already recorded. `step` runs in parallel, so "first one in wins" would make the chosen witness
+/// (and every job that starts from it) depend on thread timing; the minimum does not.
+pub fn keep_min_witness<K: Ord>(m: &mut std::collections::BTreeMap<K, Hist>, k: K, h: Hist) {
+    match m.get(&k) {
+        Some(old) if (old.len(), &old[..]) <= (h.len(), &h[..]) => {},
+        _ => {
+            m.insert(k, h);
+        },
+    }
 }
 
 /// `step(history, sym)` must be a pure function of its arguments.
@@ -56,6 +71,7 @@ where
         states: 0,
         transitions: 0,
         max_depth: 0,
+        complete_depth: 0,
         closed: false,
         capped_by: None,
         deepest: vec![],
@@ -116,6 +132,7 @@ where
             }
         }
         depth += 1;
+        out.complete_depth = depth;
         if !next.is_empty() {
             out.max_depth = depth;
             out.deepest = next[next.len() - 1].clone();
